@@ -244,6 +244,8 @@ impl<'a> Sim<'a> {
         let svc: Svc = Service::new(n.config.clone(), n.db.clone().into(), n.storage.clone(), policies, n.signer.clone(), rng, ann, Emitter::default());
         n.svc = Some(svc);
         n.gt.new_generation();
+        // the new process' clock starts at its initialization time (and is monotone from there)
+        n.gt.clock = now;
         {
             // hook H4: the counter and the cached inventory before `initialize`
             let (inv, last) = n.svc.as_ref().unwrap().verif_timestamps();
